@@ -75,6 +75,26 @@ class _Monitor:
 MONITOR = _Monitor()
 
 
+class GlobalStoreProbe:
+    """Passive 'scheduler': counts executed iodata lines that rebind a module-level name."""
+
+    def __init__(self):
+        self._gl = {}
+        self.hits = 0
+        self.sites = set()
+
+    def line_point(self, fn, lineno, code):
+        lines = self._gl.get(code)
+        if lines is None:
+            lines = Baton._global_store_lines(self, code)
+        if lineno in lines:
+            self.hits += 1
+            self.sites.add(f"{os.path.basename(fn)}:{lineno}")
+
+    def seam_point(self, what):
+        pass
+
+
 class Steps:
     """Context manager around one simulated run (single- or multi-threaded)."""
 
@@ -131,8 +151,11 @@ class Baton:
         kind = policy[0]
         self._next_switch = None
         self._replay = None
-        if kind in ("random", "newline"):
+        self._gl = {}
+        self._after_store = {}
+        if kind in ("random", "newline", "gstore"):
             self.p = float(policy[1])
+            self.p_g = float(policy[2]) if kind == "gstore" else 0.0
             self._draw_next()
             # "newline": additionally pre-empt with probability p_new at every iodata line that is
             # executed for the first time in this run (cold paths: first-use initialisation, memo fills)
@@ -157,7 +180,31 @@ class Baton:
         self._next_switch = self.points + gap
 
     # -- called from client threads ---------------------------------------------------------
+    def _global_store_lines(self, code):
+        """Line numbers of a code object that rebind a module-level name (STORE_GLOBAL / DELETE_GLOBAL)."""
+        lines = self._gl.get(code)
+        if lines is None:
+            import dis
+
+            lines = set()
+            cur = None
+            for ins in dis.get_instructions(code):
+                if ins.starts_line is not None:
+                    cur = ins.starts_line
+                if ins.opname in ("STORE_GLOBAL", "DELETE_GLOBAL") and cur is not None:
+                    lines.add(cur)
+            self._gl[code] = lines
+        return lines
+
     def line_point(self, fn, lineno, code):
+        if self.policy[0] == "gstore":
+            cur = self.cur
+            if cur is not None and threading.current_thread() is cur.thread:
+                # the previous line of this client rebound a module-level name: the window between that
+                # store and the next use is where races on shared slots live
+                if self._after_store.get(cur.idx) and self.rng.random() < self.p_g:
+                    self._next_switch = self.points + 1
+                self._after_store[cur.idx] = lineno in self._global_store_lines(code)
         if self.policy[0] == "newline":
             key = (fn, lineno)
             if key not in self.seen:
@@ -178,7 +225,7 @@ class Baton:
         self.points += 1
         kind = self.policy[0]
         target = None
-        if kind in ("random", "newline"):
+        if kind in ("random", "newline", "gstore"):
             if self.points >= self._next_switch:
                 others = [c for c in self.clients if not c.done and c is not cur]
                 self._draw_next()
@@ -228,7 +275,7 @@ class Baton:
             self.finished.set()
             return
         kind = self.policy[0]
-        if kind in ("random", "newline"):
+        if kind in ("random", "newline", "gstore"):
             nxt = rest[self.rng.randrange(len(rest))]
         elif kind == "pct":
             nxt = max(rest, key=lambda c: (c.prio, -c.idx))
@@ -253,7 +300,7 @@ class Baton:
             c.thread = threading.Thread(target=self._body, args=(c,), name=f"client-{c.idx}", daemon=True)
             c.thread.start()
         kind = self.policy[0]
-        if kind in ("random", "newline"):
+        if kind in ("random", "newline", "gstore"):
             first = self.clients[self.rng.randrange(len(self.clients))]
         elif kind == "pct":
             first = max(self.clients, key=lambda c: (c.prio, -c.idx))
